@@ -101,6 +101,7 @@ Step(tr, e) ==
     [] e.k = "stats" ->
          LET t == trees[e.tid]  st == StatsTree(tr.cmap, t) IN
          IF AnyUnspec(st) THEN Res(TRUE, "UNSPEC", trees)
+         ELSE IF ~e.ok THEN Res(FALSE, "generate_stats-raised", trees)
          ELSE Res(TRUE, "", SetTree(trees, e.tid, WithStats(t, GenAll(st))))
     [] e.k = "opt" ->
          LET t == trees[e.tid]  c == GetC(t, e.ci, e.fi)
